@@ -22,6 +22,7 @@ from translate import c19 as T
 
 ID = 'C19'
 PROPS_V = 'C19/Props.v'
+COQCHK = 'norec'   # closure rests on Reals (and Interval): full coqchk takes tens of minutes
 LEVEL = 'proof'
 PROVE_TIMEOUT = 900
 TRUSTED = [
